@@ -601,6 +601,19 @@ class BaseIOStream:
         if self._read_future is not None:
             futures.append(self._read_future)
             self._read_future = None
+            # The failed read's parameters must not leak into later reads
+            # (which may still be satisfied from the read buffer).
+            self._read_bytes = self._read_delimiter = self._read_regex = None
+            self._read_partial = False
+            if self._user_read_buffer:
+                # A read_into() that fails must not leave the caller's buffer
+                # installed as our read buffer (later reads would return an
+                # int and scribble on it); keep the bytes received so far.
+                self._read_buffer = bytearray(
+                    memoryview(self._read_buffer)[: self._read_buffer_size]
+                )
+                self._after_user_read_buffer = None
+                self._user_read_buffer = False
         futures += [future for _, future in self._write_futures]
         self._write_futures.clear()
         if self._connect_future is not None:
